@@ -58,6 +58,7 @@ type thread struct {
 	note    string
 	pending bool // parked at a point
 	done    bool
+	fresh   bool // just passed StorePoint: the first engine transaction that follows does not yield again (TxnPoint)
 	ext     bool // believed to be blocked on something the scheduler does not model (channel, uncontrolled goroutine)
 	name    string
 }
@@ -138,6 +139,27 @@ func point(t *thread, k opKind, obj unsafe.Pointer, note string) {
 func Yield(note string) {
 	if t := self(); t != nil {
 		point(t, opStore, nil, note)
+	}
+}
+
+// StorePoint is the scheduling point the store wrapper takes before a store operation.
+func StorePoint(note string) {
+	if t := self(); t != nil {
+		point(t, opStore, nil, note)
+		t.fresh = true
+	}
+}
+
+// TxnPoint is a scheduling point before an engine transaction inside a store operation (inserted into storage/badger by
+// vinstr). The first transaction after StorePoint belongs to the point already taken; every further one yields, so an
+// operation that is not a single transaction can be interleaved between its transactions.
+func TxnPoint() {
+	if t := self(); t != nil {
+		if t.fresh {
+			t.fresh = false
+			return
+		}
+		point(t, opStore, nil, "txn")
 	}
 }
 
